@@ -385,4 +385,61 @@ theorem auth_provider_gets (mt : Nat → Nat → Bool) (s : AuthSt) (p : Provide
   unfold providerGets specApplies
   cases p.filt <;> rfl
 
+/-- scope: a provider applied through `set_on_case` comes from the test's own storage if `apply` attached one, otherwise
+    from the schema's storage if that has providers, otherwise from the global storage — and it admits the operation -/
+theorem setOnCase_scope (mt : Nat → Nat → Bool) (s : AuthSt) (test : Option Nat) (o : Nat) (p : Provider)
+    (h : setOnCase mt s test o = some p) :
+    providerGets mt s p o = true ∧
+    ((test.bind s.testStore = some p) ∨
+     (test.bind s.testStore = none ∧ s.providers 1 ≠ [] ∧ p ∈ s.providers 1) ∨
+     (test.bind s.testStore = none ∧ s.providers 1 = [] ∧ p ∈ s.providers 0)) := by
+  unfold setOnCase at h
+  cases ht : test.bind s.testStore with
+  | some q =>
+    simp only [ht] at h
+    by_cases hg : providerGets mt s q o = true
+    · simp only [hg, if_true] at h
+      cases h
+      exact ⟨hg, Or.inl rfl⟩
+    · simp [hg] at h
+  | none =>
+    simp only [ht] at h
+    cases h1 : s.providers 1 with
+    | cons q qs =>
+      simp only [h1, List.isEmpty_cons, Bool.not_false, if_true] at h
+      have := (auth_set_first_match mt s 1 o p).1 h
+      obtain ⟨hg, pre, post, heq, _⟩ := this
+      refine ⟨hg, Or.inr (Or.inl ⟨rfl, by simp, ?_⟩)⟩
+      rw [← h1, heq]; simp
+    | nil =>
+      simp only [h1, List.isEmpty_nil, Bool.not_true] at h
+      cases h0 : s.providers 0 with
+      | nil => simp [h0] at h
+      | cons q qs =>
+        simp only [h0, List.isEmpty_cons, Bool.not_false, if_true, Bool.false_eq_true, if_false] at h
+        have := (auth_set_first_match mt s 0 o p).1 h
+        obtain ⟨hg, pre, post, heq, _⟩ := this
+        refine ⟨hg, Or.inr (Or.inr ⟨rfl, rfl, ?_⟩)⟩
+        rw [← h0, heq]; simp
+
+/-! ### non-vacuity of the auth statements -/
+
+example : (authRun authInit [.register 0, .register 1]).nH = 2 ∧
+    (authRun authInit ([.register 0, .handleApply 0 true 5] ++ AuthOp.register 1 ::
+      [.handleApply 1 true 0, .handleApply 0 true 7, .handleApply 1 false 2, .decorate 1 3])).providers 1 = [⟨3, some 1⟩] ∧
+    (authRun authInit ([.register 0, .handleApply 0 true 5] ++ AuthOp.register 1 ::
+      [.handleApply 1 true 0, .handleApply 0 true 7, .handleApply 1 false 2, .decorate 1 3])).heap 1 = ⟨[0], [2]⟩ := by decide
+
+example : setOnCase (fun f o => f == o) (authRun authInit [.register 0, .handleApply 0 true 1, .decorate 0 7]) none 1
+    = some ⟨7, some 0⟩ := by decide
+
+/-- non-vacuity of `fn_hook_applied_iff`: hook 1 restricted to filter 1 (operations 2, 3) is applied to 2, not to 0 -/
+example :
+    let s := run .repaired (init 2 fun m => m)
+      ([.regApply 1 true 0, .registerFn 1 0 (.gen .map .query), .regApply 1 true 1] ++
+        .registerFn 1 1 (.gen .map .query) :: [.registerFn 1 2 (.gen .map .query)])
+    let mt : Nat → Nat → Bool := fun f o => (f == 0 && o < 2) || (f == 1 && o ≥ 2)
+    (Action.map, 1) ∈ applyToContainer mt s 1 .query (some 2) ∧ (Action.map, 1) ∉ applyToContainer mt s 1 .query (some 0) := by
+  decide
+
 end SV.Props.C19
